@@ -39,8 +39,10 @@ LEVEL_NOTE = (
     "Trusted: KNXIPFrame codec (C20/C21), the virtual loop. Judged: returned data/None belongs to a delivered frame of matching service, object "
     "type, instance and property; indications reach only the callback; no new request on the wire while an earlier call is unfinished; a close "
     "fails every unfinished call with CommunicationError within 1 virtual second; <= 4 transmissions and one counter per call; each new request "
-    "carries the counter the server expects. Not judged (recorded): a late answer for the *same* property returned to a retry (indistinguishable, "
-    "documented in the code), number_of_elements/start_index of answers, what happens to the connection after 4 unacknowledged transmissions."
+    "carries the counter the server expects (a counter that ran ahead because a late answer for the very same property arrived while the request was "
+    "lost is reported under its own mechanism `...indistinguishable-stale-answer...`). Not judged (recorded): the data of a late answer for the *same* "
+    "property returned to a retry (indistinguishable, documented in the code), number_of_elements/start_index of answers, what happens to the "
+    "connection after 4 unacknowledged transmissions, exceptions reaching the loop handler."
 )
 SHARDS = {"quick": 1, "thorough": 16}
 TIMEOUT = {"quick": 300, "thorough": 3000}
